@@ -131,7 +131,7 @@ DEAD_LOADS = ["{ EA = RsV; RdV = (0 ? mem_load_s32(EA) : RtV); }", "{ RdV = (1 ?
               "{ if (1 ? 0 : PuV) { JUMP(riV); } }", "{ RdV = (1 ? RsV : 0); if (0 ? 1 : 0) { mem_store_u32(RsV, RtV); } }"]
 NARROW_COMPOUND = [f"{{ {t} a = RsV; a {op} RtV; RdV = a; }}" for t in ("int8_t", "uint8_t", "int16_t", "uint16_t")
                    for op in ("+=", "-=", "*=", "<<=", ">>=", "/=", "%=", "&=", "|=", "^=")] + \
-                  ["{ int32_t a = RsV; a /= RssV; RdV = a; }", "{ int32_t a = RsV; a %= RssV; RdV = a; }", "{ PdV = RsV; PdV += 1; }"]
+                  ["{ int32_t a = RsV; a /= RttV; RdV = a; }", "{ int32_t a = RsV; a %= RttV; RdV = a; }", "{ PdV = RsV; PdV += 1; }"]
 
 
 def template_worker(texts, nstates, seed):
@@ -145,10 +145,16 @@ def template_worker(texts, nstates, seed):
     return p.d
 
 
+NESTED_DEAD = ["{ RdV = (1 ? 3 : ((RtV > 0) ? ({ int32_t x = RsV; x; }) : 1)); }",
+               "{ RdV = (0 ? ((RtV > 0) ? ({ int32_t x = RsV; x + 1; }) : RuV) : RsV); }",
+               "{ RdV = (1 ? RsV : ((RtV > RsV) ? clz32(RuV) : (RtV + 1))); }",
+               "{ RdV = (1 ? 2 : ((RsV & 1) ? ((RtV & 2) ? 3 : RuV) : 4)); }"]
+
+
 def templates(tier):
-    from . import c09, c15, static_common
-    t = DEAD_LOADS + NARROW_COMPOUND + list(c09.DEAD_ARM_TEMPLATES) + list(c09.CONST_COND_TEMPLATES) + list(c15.TEMPLATES) + \
-        static_common.bool_consumer_templates()
+    from . import c07, c09, c15, static_common
+    t = DEAD_LOADS + NARROW_COMPOUND + NESTED_DEAD + list(c09.DEAD_ARM_TEMPLATES) + list(c09.CONST_COND_TEMPLATES) + list(c15.TEMPLATES) + \
+        static_common.bool_consumer_templates() + [x for _, x in c07.spelling_cells()]
     if tier == "thorough":
         t += static_common.context_templates()
     return t
